@@ -220,3 +220,85 @@ def report_mismatches(ctx, results, what):
 
 def c15_build(ctx):
     ctx.note('build_half', 'not yet wired')
+
+
+# ---------------------------------------------------------------------------
+# generic check used by props/C01..C05, C11
+# ---------------------------------------------------------------------------
+
+SCHED_TRUST = [
+    'hand-written model coq/Model/Sched.v of pl/schedule.py + pl/farm.py, tied to the code by the '
+    'correspondence: tools/harness/drive_sched.py runs the REAL organize/next_job_batch/complete/'
+    'purge/update/dispatch/Hand._res/_reg/_process/connectionLost on generated event lists and '
+    'every observable after every event is compared with the model (vm_compute)',
+    'driver fakes (outside /repo): Twisted transports, fsm stub (activity flag, archiving_trigger '
+    'recorder), dawgie.db.next/targets, chronicle.append recorder, in-memory AE packages '
+    '(tools/harness/engine_mem.py); id tables (nodes/targets/values sorted by name)',
+    'graph hypothesis wf_graph (ancestry = transitive closure of kids, acyclic) is checked on '
+    'every graph the real dag.Construct produced (C09 proves it for the Dag model)',
+]
+SCHED_ASSUME = [
+    'Twisted delivers callbacks of one reactor atomically (events are atomic steps)',
+    'promotion engine off (context.allow_promotion = False, the default); AWS agency absent',
+    'python set iteration order does not matter: observations compare sets sorted; todo order '
+    'is not observable through dispatch (it sorts)',
+]
+
+
+def sched_check(ctx, oracle, profiles, nontrivial, witnesses=(), rule=''):
+    import glob
+    import os
+    ctx.cov['rule'] = rule
+    ctx.trust(*SCHED_TRUST)
+    ctx.assume(*SCHED_ASSUME)
+    changed = fingerprints(ctx)
+    escalate = bool(changed) and ctx.quick
+    if escalate:
+        ctx.note('escalated', 'fingerprint of %s changed: thorough depth' % changed)
+    pr = ctx.coq_props()
+    # corpus first
+    cases = []
+    for f in sorted(glob.glob(os.path.join(core.VERIF, 'corpus', 'sched', '*.json'))):
+        cases.append(json.load(open(f)))
+    ncorpus = len(cases)
+    per = ctx.n(40, 400) if not escalate else 400
+    nev = ctx.n(50, 80)
+    for p in profiles:
+        for i in range(per):
+            cases.append({'seed': '%d:%s:%d' % (ctx.seed, p, i), 'nev': nev, 'profile': p,
+                          'nalg': 6 if i % 3 else 8})
+    results = []
+    nmis = 0
+    for k in range(0, len(cases), 120):
+        res, n = run_corr(ctx, cases[k:k + 120], oracle)
+        results += res
+        nmis += n
+    keys = [str(r.get('seed')) for r in results if nontrivial(r)]
+    ctx.count(evaluations=len(results), nontrivial_keys=keys)
+    hist = {}
+    for r in results:
+        for e in r['events']:
+            hist[e[0]] = hist.get(e[0], 0) + 1
+    ctx.note('event_histogram', hist)
+    ctx.note('corpus_cases', ncorpus)
+    ctx.note('events_total', sum(hist.values()))
+    ctx.note('correspondence_mismatches', nmis)
+    if results:
+        ctx.sample({'seed': results[-1].get('seed'), 'tags': results[-1]['graph']['tags'],
+                    'events': results[-1]['events'][:12]})
+    for w in witnesses:
+        ctx.expect_known(w, any(k.startswith(w) for k in ctx.known_hits))
+    if not pr['ok']:
+        if ctx.nviol == 0:
+            ctx.broken('theorem/file %s' % pr['failing'], pr['log'],
+                       {'source': 'proof', 'theorem': pr['failing']})
+    if nmis and ctx.nviol == 0:
+        report_mismatches(ctx, results, 'scheduler/farm')
+    elif nmis:
+        ctx.note('correspondence_mismatch_explained_by_violation', True)
+    # every open finding must keep reproducing on the implementation
+    for w in witnesses:
+        if not any(k.startswith(w) for k in ctx.known_hits) and ctx.nviol == 0:
+            ctx.broken('known finding %s no longer reproduces: model (faithful to the finding) and code have diverged' % w,
+                       'the directed witness in corpus/sched did not trigger', {'source': 'correspondence'})
+    return results
